@@ -4,7 +4,7 @@ import CaresModel.Chan.Core
 
 The ownership / index invariant of the channel model only reads a small part of the state: for each
 query its `(key, qid, owner, conn)`, for each connection `(fd, srv, tcp, unlinked, queries)`, for each
-server `(id, conns, tcpConn)`, for each compound request `(id, tok)`, the descriptor numbers of the
+server `(id, conns, tcpConn)`, for each compound request `(id, tok, outstanding)`, the descriptor numbers of the
 virtual sockets, the index lists, the allocation counters, the token accounting and the safety-fault
 log.  `St.sk` projects the state onto that skeleton; every helper of `Chan.Core` that only touches other
 fields satisfies `(f s).sk = s.sk` (tagged `@[simp]`), so all invariants (stated over the skeleton) are
@@ -36,12 +36,20 @@ structure SSk where
 structure KSk where
   id : Nat
   tok : Nat
+  /-- ghost measure: sub-requests the compound request is still waiting for (see `Client.outstanding`) -/
+  out : Nat
   deriving Repr, DecidableEq
 
 def Query.sk (q : Query) : QSk := ⟨q.key, q.qid, q.owner, q.conn⟩
 def Conn.sk (c : Conn) : CSk := ⟨c.fd, c.srv, c.tcp, c.unlinked, c.queries⟩
 def Server.sk (v : Server) : SSk := ⟨v.id, v.conns, v.tcpConn⟩
-def Client.sk (c : Client) : KSk := ⟨c.id, c.tok⟩
+/-- how many completion callbacks of sub-requests the compound request still expects, as far as its own
+    bookkeeping is concerned: `ares_getaddrinfo` counts them in `remaining`; `ares_query` / `ares_search`
+    always wait for exactly one.  The *client contract* (`ChanWfContract`) says the pure client logic keeps
+    this number right and completes only when it reaches zero. -/
+def Client.outstanding (c : Client) : Nat := if c.kind == "gai" then c.remaining else 1
+
+def Client.sk (c : Client) : KSk := ⟨c.id, c.tok, c.outstanding⟩
 
 structure Sk where
   qs : List QSk
